@@ -350,6 +350,24 @@ def linear_forward(chk, helper_nodes):
                                 okp = val.balanced()
                                 chk.require("C07.R2", site, okp, f"QTensorLinear.forward ({what}): payloads {sorted(val.codes)} matched by scales {list(val.scales)}", "QTensorLinear.forward", "linear payload/scale pairing",
                                             "a quantized activation with a per-tensor scale: the output is off by the activation scale (invisible to cosine similarity)")
+    # weights that are neither QBytes nor AWQ (packed low-bit weights, plain tensors) take the float matmul route
+    for r in ranks:
+        for has_bias in (True, False):
+            x = T(batch(r) + (L("in"),), "float", "input")
+            wq = T((L("out"), L("in")), "float", "other")
+            b = T((L("out"),), "float", "bias") if has_bias else None
+            res = Interp(fwd, {ctxn: Obj(), inp: x, oth: wq, bias: b, "qbytes_mm": qbytes_mm_op}, helper_nodes).run()
+            want = batch(r) + (L("out"),)
+            what = f"float rank-{r + 1} input, weight taking the float route (packed low-bit / plain), bias={has_bias}"
+            for status, val, trace in res:
+                site = f"{mi.rel}:{fwd.lineno}"
+                if status == "typeerr":
+                    chk.bad("C07.R1", site, "QTensorLinear.forward", f"QTensorLinear.forward float route: {_gen(val)}", f"QTensorLinear.forward ({what}): {val}", what)
+                elif status == "unknown":
+                    chk.unknown("C07.R1", site, f"QTensorLinear.forward ({what}): {val}")
+                elif status == "ok":
+                    n += 1
+                    chk.require("C07.R1", site, isinstance(val, T) and val.labels == tuple(want), f"QTensorLinear.forward ({what}) returns {val}", "QTensorLinear.forward", "linear float route labels", what)
     chk.floor("C07.R1", n, 12, "QTensorLinear.forward typed instances")
     # the plain (non-quantized weight) route and the handler's argument order
     h = [x for x in handlers(repo)["qfunc"] if any(o.endswith("functional.linear") for o in x.ops)]
